@@ -520,7 +520,8 @@ def gen_meas_beyond(Ls, qs, ts_opts, kmax, tails, leads=(0,), tail_kinds=TAIL_KI
                                         allops = (lead + ops + tail) if (d + g) % 2 else (tail + ops + lead)
                                         if not measures_in_scope(_mk_state(q, allops)):
                                             continue
-                                        yield dict(q=q, maps=["ts", "meas", "ks", "clef"], phases=[allops], beyond=[g, d])
+                                        maps = ["ts", "meas"] + [k for k in ("ks", "clef") if any(o[0] == k for o in allops)]
+                                        yield dict(q=q, maps=maps, phases=[allops], beyond=[g, d])
 
 
 def gen_meas_setq(Ls, kmax):
@@ -795,17 +796,17 @@ def gen_requery(wide=False):
     if not wide:
         gens = [gen_ks(3, (0, 1), 2, {1: "pool6", 2: "pool3"}),
                 gen_ts(3, (0, 1), TS_POOL[:3], 2, frame="both"),
-                gen_clef(2, 2, 2),
-                gen_meas(range(1, 7), (1, 2), ts_opts, 3, ("from1",)),
-                gen_meas((4, 6), (1,), ts_opts, 3, ("from0",), with_ks_clef=True),
-                gen_meas_beyond((3, 5), (1,), ts_opts, 3, (0, 2), leads=(0, 1), tail_kinds=("over", "ks"))]
+                gen_clef(2, 2, 1), gen_clef(1, 2, 2),
+                gen_meas(range(1, 6), (1,), ts_opts, 3, ("from1",)),
+                gen_meas((6,), (2,), ts_opts, 3, ("from0",), with_ks_clef=True),
+                gen_meas_beyond((3, 4), (1,), ts_opts[:3], 2, (0, 2), leads=(0, 1), tail_kinds=("over", "ks"))]
     else:
         gens = [gen_ks(4, (0, 2), 3, {1: "all", 2: "pool4", 3: "pool3"}),
-                gen_ts(4, (0, 2), TS_POOL[:4], 3, frame="both"),
+                gen_ts(4, (0, 2), TS_POOL[:4], 2, frame="both"),
                 gen_clef(3, 2, 2), gen_clef(2, 3, 1),
-                gen_meas(range(1, 9), (1, 2, 3), ts_opts + [("at0", 2, 2)], 4, ("from1", "odd")),
+                gen_meas(range(1, 9), (1, 2), ts_opts + [("at0", 2, 2)], 4, ("from1",)),
                 gen_meas((4, 6, 8), (1, 2), ts_opts, 3, ("from0",), with_ks_clef=True),
-                gen_meas_beyond(range(2, 7), (1, 2), ts_opts, 3, (0, 1, 3), leads=(0, 2))]
+                gen_meas_beyond(range(2, 7), (1,), ts_opts, 3, (0, 1, 3), leads=(0, 2), tail_kinds=("over", "late", "ks"))]
     for c in itertools.chain(*gens):
         c = dict(c)
         c["scribble"] = 1
